@@ -114,25 +114,60 @@ def _w7_structure(prog, res):
     else:
       kinds.append(('other', None, st))
   seq = [k[0] for k in kinds]
-  good = (seq[:3] == ['sort', 'proj:monotonicity', 'proj:input_index']
-          and kinds[0][1])
+  # by value: after the sort, the grouping key and the appended value - with
+  # the locals they pass through replaced by their definitions - are the
+  # projections (attribute of every element, in order) of the sorted `lattice`
+  import copy as _copy
+  env = {}
+
+  class _S(ast.NodeTransformer):
+    def visit_Name(self, n):
+      if isinstance(n.ctx, ast.Load) and n.id in env:
+        return _copy.deepcopy(env[n.id])
+      return n
+  sort_pos = [i for i, k in enumerate(kinds) if k[0] == 'sort']
+  app = None
+  app_pos = None
+  for i, st in enumerate(body):
+    if isinstance(st, ast.Assign) and len(st.targets) == 1 and isinstance(
+        st.targets[0], ast.Name):
+      env[st.targets[0].id] = _S().visit(_copy.deepcopy(st.value))
+    for c in ast.walk(st):
+      if isinstance(c, ast.Call) and isinstance(c.func, ast.Attribute) and \
+          c.func.attr == 'append' and isinstance(c.func.value, ast.Subscript):
+        app = _S().visit(_copy.deepcopy(c))
+        app_pos = i
+
+  def projection(e):
+    """attribute name when e is tuple(...)/list(...)/[...] of x.attr for x in
+    lattice"""
+    if isinstance(e, ast.Call) and dotted(e.func) in ('tuple', 'list') and \
+        len(e.args) == 1:
+      e = e.args[0]
+    if isinstance(e, (ast.GeneratorExp, ast.ListComp)) and len(
+        e.generators) == 1 and not e.generators[0].ifs and dotted(
+            e.generators[0].iter) == 'lattice' and isinstance(
+                e.elt, ast.Attribute) and dotted(e.elt.value) == dotted(
+                    e.generators[0].target):
+      return e.elt.attr
+    return None
+  key_attr = projection(app.func.value.slice) if app is not None else None
+  val_attr = projection(app.args[0]) if app is not None and app.args else None
+  sorted_first = bool(sort_pos) and kinds[sort_pos[0]][1] and \
+      app_pos is not None and body.index(kinds[sort_pos[0]][2]) < app_pos and \
+      not any(k[0] == 'other' for k in kinds)
+  good = sorted_first and key_attr == 'monotonicity' and \
+      val_attr == 'input_index'
   res.check(good, 'W7', '%s|same-sorted-sequence' % fn.qualname,
             fn.loc(loop),
             'lattice.sort(by monotonicity); monotonicities and input indices '
             'are both read from that sorted list',
             'the monotonicity tuple and the input index list of a lattice are '
             'no longer projections of the same sorted sequence (statement '
-            'kinds: %s): inputs would be wired to dimensions with another '
-            'input\'s monotonicity' % seq)
-  # grouping key and value
-  app = None
-  for c in ast.walk(loop):
-    if isinstance(c, ast.Call) and isinstance(c.func, ast.Attribute) and \
-        c.func.attr == 'append' and isinstance(c.func.value, ast.Subscript):
-      app = c
-  good = app is not None and len(kinds) >= 3 and dotted(
-      app.func.value.slice) == kinds[1][1] and dotted(
-          app.args[0]) == kinds[2][1]
+            'kinds: %s; key %s, value %s): inputs would be wired to dimensions '
+            'with another input\'s monotonicity' % (seq, key_attr, val_attr))
+  good = app is not None and key_attr == 'monotonicity' and \
+      val_attr == 'input_index'
   res.check(good, 'W7', '%s|group-by-monotonicities' % fn.qualname,
             fn.loc(loop),
             'lattices are grouped by their monotonicity tuple; the group holds '
